@@ -38,7 +38,7 @@ PROPS = {
         'not_decided': [],
     },
     'C09': {
-        'technique': 'Verus contracts on the extracted text of DurationEstimator::{create_with_alignment, estimate_duration_with_frame_length} and Labels::new; Kani-checked hole contracts and float lemma L3; modular Kani harnesses on the real create_with_alignment with the fit replaced by its Verus-proved contract',
+        'technique': 'Verus contracts on the extracted text of DurationEstimator::{create_with_alignment, estimate_duration_with_frame_length} and Labels::new; Kani-checked hole contracts and float lemma L3; modular Kani harnesses on the real create_with_alignment with the fit replaced by its Verus-proved contract; the real body of Labels::new on three labels with symbolic times (K-labels-body)',
         'level_text': 'unbounded deductive proof (Verus/z3) that every known-end label closes a group fitted to (end - frames so far), every state gets >= 1 frame, all labels contribute all states and trailing labels fall back to model durations; round() identity (L3) by a loop-free Kani lemma',
         'level_note': 'holes (iterator chains, casts) abstracted by contracts that Kani checks on fixed sizes N<=3 (bounded); usize overflow of frame sums excluded by precondition; float operations uninterpreted in Verus; API-level counterparts (K-dur-mod) are bounded: concrete end times with a symbolic split inside each fitted group',
         'verus': ['duration', 'labels', 'engine'],
@@ -135,7 +135,7 @@ PROPS = {
         'not_decided': ['all samples finite inside the stable range; non-finite only after runaway growth', 'Model::get_parameter todo!() unreachable only for well-formed models (precondition lookup_ok in unit tree)'],
     },
     'C05': {
-        'technique': 'Verus contracts on the extracted text of Mask::boundary_distances, Window accessors and MlpgMatrix::{ldl_factorization, substitutions, solve}; Kani harnesses on Mask::{create,fill} and MlpgAdjust::create (argument capture by stubbing calc_wuw_and_wum)',
+        'technique': 'Verus contracts on the extracted text of Mask::boundary_distances, Window accessors and MlpgMatrix::{ldl_factorization, substitutions, solve}; Kani harnesses on Mask::{create,fill} and MlpgAdjust::create (argument capture by stubbing calc_wuw_and_wum); bit-precise Kani runs of the real calc_wuw_and_wum and solve on exact dyadic instances against the definition (K-wuw, K-solve)',
         'level_text': 'unbounded proof of the boundary distances (voiced run lengths to the nearest unvoiced frame or edge) for any number of frames; unbounded proof (any length, any band width, IEEE ops uninterpreted) that ldl_factorization is the textbook in-place banded LDL\' recursion, that substitutions is forward then backward substitution over ALL width-1 off-diagonals, and that solve composes them leaving the right-hand side untouched, all panic-free on a well-formed matrix; bounded: frame -> state expansion, unvoiced frames carry NODATA, dynamic windows whose span touches an utterance edge or an unvoiced frame get zero precision (width-3 and width-5 windows)',
         'level_note': 'PARTIAL: that calc_wuw_and_wum accumulates the band of W\'U^-1W and W\'U^-1mu is checked bounded only (K-wuw: 4 frames, static + delta + delta-delta windows, exact dyadic values against the definition computed over the rationals, on the domain create() produces: zero precision on edge-truncated dynamic rows); that the LDL\' recursions solve the normal equations to rounding accuracy is NOT decided (real-number linear algebra; no float semantics in Verus, symbolic products intractable in CBMC); the solver contracts pin the recursions, not their numerical meaning',
         'verus': ['mask', 'window', 'mlpgsolve'],
@@ -159,7 +159,7 @@ PROPS = {
         'not_decided': ['variance within 20% of gv_weight x GV mean', 'monotone growth with the weight', 'conv_gv / calc_gv beyond the bounded concrete check (5 frames)', 'step-size schedule of parmgen'],
     },
     'C14': {
-        'technique': 'Verus contracts on the extracted text of MelCepstrum::postfilter_mcp (b-domain, floats and b2en uninterpreted), CepstrumT::{mc2b, freqt, c2ir}, CoefficientsT::{b2mc, b2en} and Engine::generator; Kani harnesses for the no-op cases; native contract on Condition::set_beta',
+        'technique': 'Verus contracts on the extracted text of MelCepstrum::postfilter_mcp (b-domain, floats and b2en uninterpreted), CepstrumT::{mc2b, freqt, c2ir}, CoefficientsT::{b2mc, b2en} and Engine::generator; Kani harnesses for the no-op cases; native contract on Condition::set_beta; bit-precise Kani runs of the real freqt / mc2b / b2mc / c2ir on exact dyadic inputs against the textbook definitions (K-cep)',
         'level_text': 'unbounded proof (any order) of the b-domain update: b_k (k>=2) x (1+beta), b_1 - beta*alpha*b_2, b_0 + ln(e1/e2)/2, converted back with b2mc, and of the no-op cases; ring-identity lemma giving c_1 unchanged and c_k x (1+beta); Kani: no-op cases bit-identical for symbolic values; beta is clamped to [0,1] and reaches only Vocoder::new',
         'level_note': 'PARTIAL: unit postfilter uses mc2b / b2mc / b2en as named functions; unit mc2b proves that the real mc2b and b2mc are the recursions b_i = c_i - alpha b_{i+1} and c_i = b_i + alpha b_{i+1} (any order, IEEE ops uninterpreted); the energy computation is under contract end to end as a composition of recursions: b2en = sum of squares of the 576-tap c2ir of freqt(575, -alpha) of b2mc(alpha) (units b2en, c2ir, freqt, mc2b; the final sum is a Kani-checked hole); that this number is the impulse-response energy to within 1% (truncation to 576 taps, rounding) is NOT decided; the c-domain statement holds in exact arithmetic (lemma over the integers)',
         'verus': ['engine', 'postfilter', 'freqt', 'mc2b', 'c2ir', 'b2en'],
